@@ -16,6 +16,14 @@ HIST = {
  "C14-b": "not a violation of C14's own quantifier (the object is correct until it is copied and the source overwritten); caught by C19",
  "C17-a": "also reported by C13 as a crash",
  "C17-b": "same site as C19-a (found independently)",
+ "C02-c": "same change as C01-b (submitted independently for C02)",
+ "C05-c": "same change as C01-a, aimed at the per-level indexes; missed at first (no level reached 2^15 items) -> big_bulk histories; also reported by C15",
+ "C06-c": "same mechanism as C05-b (submitted independently for C06)",
+ "C03-c": "missed at first (every requested thread was delivered) -> some shards run with OMP_THREAD_LIMIT=2/3 or OMP_DYNAMIC=true; also reported by C02",
+ "C08-c": "missed at first -> '#big' cases with one giant run inside irregular keys (detected on 5 of 6 seeds in the quick tier: the trigger is a narrow bit-width window)",
+ "C10-c": "missed at first (vector length multiple of 64 has probability 1/64 per dataset) -> '#sweep' cases: ~70 prefixes of one array, a few keys apart, pass through all residues",
+ "C19-c": "caught by one assignment-chain / copy case in the quick tier (crash); the trigger is a count that is an exact multiple of 4096",
+ "C01-c": "the agent measured ~1 failing key in 10^8 random keys; the band-tight families (staircase, nested_staircase) produce hundreds of failing cases",
 }
 N = json.load(open('/verif/seeded/needs.json'))
 print("| seed | property | change (one line) | needs | confirmed by me (tests 45/45, demo fails with / passes without) | caught by (quick tier) | remark |")
